@@ -1328,6 +1328,13 @@ fn raw_walk(img: &[u8], start: usize) -> Result<Vec<Vec<u8>>, String> {
     Ok(v)
 }
 
+/// `new_boxed` with content its kind's `dst_len` rejects panics *after* the
+/// allocation and leaks the block (DESIGN §3.6 note 4).
+pub fn leaks_by_contract(op: &Op) -> bool {
+    op.kind == OpKind::NewBoxed
+        && DstKind::from_u64(op.arg(1)).map_or(false, |k| !k.content_ok(op.b.iter().map(|s| s.len()).sum()))
+}
+
 /// Executes a trace under its allocator script. One call = one simulated run.
 pub fn execute(prop: Prop, trace: &Trace) -> RunOutput {
     simalloc::begin_run(trace.cfg);
